@@ -1011,7 +1011,10 @@ C04.manifest = {
             "C04_reachable_single_source, C04_history_single_source, C04_constructed_dijkstra_total); read purely on "
             "node names: every name in single_source's map is a node with its exact shortest distance and the name "
             "form of shortest paths (one if first_only, all of them for positive weights), and every node within the "
-            "cutoff / the target is in the map (C04_reachable_single_source_answer).",
+            "cutoff / the target is in the map (C04_reachable_single_source_answer); in exact form for first_only=false "
+            "and positive weights: the path list of every reported name is duplicate free on node names and its members "
+            "are exactly the name forms of the shortest paths of the edge-store graph "
+            "(C04_reachable_single_source_paths_exact).",
     "note": "Hypotheses left in the end-to-end theorems: the property's own premises (non-negative stored weights "
             "in weighted mode, existing source/target names, cutoff >= 0) and ONE size bound, small_adj = fewer than "
             "2^31-1 adjacency entries (the i32 counter `count` of dijkstra.rs panics on overflow in a debug build); it "
